@@ -475,12 +475,13 @@ class Locale:
         """Returns a comma-separated number for the given integer."""
         if self.code not in ("en", "en_US"):
             return str(value)
-        s = str(value)
+        sign = "-" if value < 0 else ""
+        s = str(abs(value))
         parts = []
         while s:
             parts.append(s[-3:])
             s = s[:-3]
-        return ",".join(reversed(parts))
+        return sign + ",".join(reversed(parts))
 
 
 class CSVLocale(Locale):
